@@ -221,15 +221,35 @@ def scenario_chain(rng, tier, sid):
     total[1] += sc
     M, K = rng.randint(2, 4), rng.randint(2, 4)
     prop = ox.dft(g['du'], (M, K), None, g['os'])
-    pupil = ox.plane('Pupil', amp=amp, opd=opd, px=g['dx'], z=g['z'])
+    mask = None
+    wtilt = None
+    if rng.random() < 0.5:
+        # a segmented pupil splits the incoming field into several fields, and the wavefront already carries tilt
+        n = amp.shape[1]
+        amp = np.maximum(amp, 1)
+        mask = np.zeros((2,) + amp.shape, dtype=int)
+        mask[0, :, :n // 2] = 1
+        mask[1, :, n // 2:] = 1
+        sr0, sc0 = q4(), q4()
+        wtilt = (sr0 * g['du'][0] / (g['z'] * g['os']), -sc0 * g['du'][1] / (g['z'] * g['os']))
+        total[0] += sr0
+        total[1] += sc0
+    pupil = ox.plane('Pupil', amp=amp, opd=opd, px=g['dx'], z=g['z'], mask=mask)
     meta = dict(sid=sid, N=N, kind='chain', s=[str(total[0]), str(total[1])], nonsquare=g['du'][0] != g['du'][1], os=g['os'])
     cases = []
     perms = list(itertools.permutations(range(3)))
     if tier == 'quick':
         perms = rng.sample(perms, 3)
     for perm in perms:
-        cases.append(dict(meta, rep='order-' + ''.join(map(str, perm)), wf=ox.wf(g['lam']),
+        # the pupil itself takes every position among the tilt elements of a none-typed chain only at the front
+        # (type rules), the tilt elements come in every order after it
+        cases.append(dict(meta, rep='order-' + ''.join(map(str, perm)), wf=ox.wf(g['lam'], tilt=wtilt),
                           steps=[pupil] + [elems[i] for i in perm] + [prop], thm='none'))
+    # tilt elements applied BEFORE the pupil (wavefront of type none) must give the same image
+    perm = rng.choice(list(itertools.permutations(range(3))))
+    k = rng.randint(1, 3)
+    cases.append(dict(meta, rep='order-split', wf=ox.wf(g['lam'], tilt=wtilt),
+                      steps=[elems[i] for i in perm[:k]] + [pupil] + [elems[i] for i in perm[k:]] + [prop], thm='none'))
     return cases
 
 
